@@ -14,7 +14,7 @@ def run(ctx):
     ctx.known_match.update(KNOWN_MATCH)
     api.run_vcs(ctx, C11_vc.vcs(ctx), {
         "C11.dispatch.forward_all": "path-or-file dispatch: the path branch re-enters the function with the opened handle and every other parameter unchanged (7 functions)",
-        "C11.tok.roundtrip": "transcript_to_token then token_to_transcript: id preserved, start in (s - shift, s], end within one frame shift"})
+        "C11.P.tok_roundtrip": "transcript_to_token then token_to_transcript: id preserved, start in (s - shift, s], end within one frame shift"})
     if C11_rt:
         C11_rt.run_bounded(ctx)
     ctx.not_applicable.append("'every completion order of worker processes' in multi-process trn parsing (schedules): contracts are sequential; only processes in {0,1,k} actually run are compared")
